@@ -360,6 +360,48 @@ def run(tier, seed):
                 vandalise(res, rng)
         if h == 0:
             chk.sample({"history": hist[:12]})
+    # long runs: many DISTINCT ceremonies (more than any small cache holds: 300, plus every count the changed source newly mentions), then the first ones again and
+    # tampered copies of them; and the same accepted / refused pair repeated that often
+    from harness import srcdict
+    runs = [300] + [n + 2 for n in srcdict.thresholds() if n <= 5000][:3]
+    for total in runs:
+        firsts = []
+        for i in range(total):
+            s_ = authcat.Scn(("ES256-P256", "EdDSA")[i % 2])
+            s_.challenge = b"long-run-" + i.to_bytes(4, "big") + bytes(12)
+            s_.cred_id = b"cred-" + (i % 7).to_bytes(2, "big")
+            s_.count, s_.stored = i + 1, i
+            pol_, a_ = s_.build()
+            out_ = impl.verify_auth(pol_, a_.as_record())
+            chk.evals += 1
+            if i < 6 or i % 97 == 0:
+                firsts.append((pol_, a_, out_))
+            if not out_.startswith("OK"):
+                chk.violation(f"conformant assertion number {i + 1} of a long run refused: {out_[:60]}", f"long-run refused-valid", {"position": i + 1, "outcome": out_})
+                break
+        for pol_, a_, out_ in firsts:
+            again = impl.verify_auth(pol_, a_.as_record())
+            ad0 = a_.ad
+            a_.ad = ad0[:36] + bytes([ad0[36] ^ 1])
+            tampered = impl.verify_auth(pol_, a_.as_record())
+            a_.ad = ad0
+            chk.evals += 2
+            if again != out_ or tampered.startswith("OK"):
+                chk.violation(f"after a run of {total} distinct ceremonies: " + (f"an earlier call gives {again[:50]} instead of {out_[:50]}" if again != out_ else "a tampered copy of an earlier accepted assertion is accepted"),
+                              "long-run history", {"run_length": total, "first_outcome": out_, "again": again, "tampered_copy": tampered})
+                break
+        ok_spec = next(s for s in pool if s[0] == "auth/ES256-P256/None")
+        bad_spec = next(s for s in pool if s[0] == "auth/ES256-P256/signed-by-other-key")
+        for i in range(total):
+            for sp in (ok_spec, bad_spec):
+                o_ = run_spec(sp)[0]
+                if o_ != first[sp[0]]:
+                    chk.violation(f"repetition {i + 1} of call {sp[0]} gives {o_[:50]} instead of {first[sp[0]][:50]}", f"repetition-dependent {sp[0].split('/')[-1]}", {"call": sp[0], "repetition": i + 1, "outcome": o_, "first": first[sp[0]]})
+                    break
+            else:
+                continue
+            break
+        chk.evals += 2 * total
     # pooled request buffers: the binary fields of a credential record are bytearrays which the caller refills as soon as the call has returned - results handed out
     # earlier must not read from them (raw_id excepted: `credential.raw_id` is echoed as `credential_id`, the caller's own object)
     from webauthn.helpers.structs import AuthenticationCredential as _AC, AuthenticatorAssertionResponse as _AAR, RegistrationCredential as _RC, AuthenticatorAttestationResponse as _ATR
@@ -438,6 +480,32 @@ def run(tier, seed):
                 chk.seen(("interleaved", A_[0], B_[0]))
         chk.evals += npairs
         chk.count("interleaved-pairs", npairs)
+        # the RP's expectation objects (one list of origins, one list of algorithms, one mapping of roots) SHARED by the requests of two threads, switch points at every
+        # bytecode instruction (sys.monitoring): a call that touches them - even to put things back a moment later - shows in the other thread's outcome
+        nshared = 0
+        for A_ in calls:
+            key, kind, pol, obj = A_
+            if not (key.endswith("long-origin-list") or (kind == "reg" and key.endswith("/ok") and key.split("/")[1] in ("none", "packed", "apple"))):
+                continue
+            kw = pol.kwargs()            # ONE set of argument objects for both threads
+            import webauthn as _w2
+            def call(kw=kw, kind=kind, obj=obj):
+                try:
+                    if kind == "auth":
+                        return "OK " + impl.pr_verified_auth(_w2.verify_authentication_response(credential=obj.as_dict(), **kw))
+                    return "OK " + impl.pr_verified_reg(_w2.verify_registration_response(credential=obj.as_dict(), **kw))
+                except Exception as e:
+                    return "ERR " + fw.classify_exc(e)
+            before = deep(kw)
+            ref = call()
+            oa, obs, n = fw.interleaved(call, call, opcodes=True, max_events=1500)
+            nshared += 1
+            wrong = [o for o in [oa] + obs if o != ref]
+            if wrong or kw != before:
+                chk.violation(f"call {key} with the RP's expectation objects shared between two threads, switched at every bytecode instruction: " + (f"outcome {wrong[0][:50]} instead of {ref[:50]}" if wrong else "the shared objects were modified"),
+                              f"interleaved-shared-arguments {key.split('/')[0]}/{key.split('/')[-1]}", {"call": key, "switch_points": n, "single_threaded": ref, "outcomes": sorted(set([oa] + obs)), "arguments_changed": kw != before})
+            chk.seen(("interleaved-shared", key))
+        chk.evals += nshared
     chk.evals += 16 * min(40 if quick else len(calls), len(calls))
     for (tid, key, out, ref, viol) in errors[:5]:
         chk.violation(f"thread {tid}: call {key} gave another outcome than single-threaded", f"thread-interference {key.split('/')[0]}", {"call": key, "threaded": out, "single": ref, "arg_violations": viol})
